@@ -18,7 +18,7 @@ import numpy as np
 from . import common, meshes, runs
 from .common import flit, coq_list
 
-LU = {"um": 1e-6, "nm": 1e-9, "mm": 1e-3}
+LU = {"um": 1e-6, "nm": 1e-9, "mm": 1e-3, "m": 1.0}
 FU = {"mT": 1e-3, "uT": 1e-6, "T": 1.0}
 CU = {"uA": 1e-6, "nA": 1e-9, "mA": 1e-3}
 
@@ -111,7 +111,8 @@ def run(rep: common.Report, tier: str, seed: int, replay=None) -> int:
         rep.nontrivial(("flux", lu, fu))
     # ---------- the same physical problem in three unit systems ----------
     # matched and unmatched prefixes (uA/um = nA/nm = mA/mm = 1 A/m would hide a missing prefix conversion)
-    systems = [("um", "mT", "uA"), ("nm", "uT", "nA"), ("mm", "T", "mA"), ("um", "T", "mA"), ("nm", "mT", "uA")]
+    systems = [("um", "mT", "uA"), ("nm", "uT", "nA"), ("mm", "T", "mA"), ("um", "T", "mA"), ("nm", "mT", "uA"),
+               ("m", "mT", "uA")]     # SI lengths: coordinates of order 1e-6
     B_T, I_A = 0.4e-3, 2.0e-6
     for screening, ramp in ((False, False), (True, False), (False, True)):
         frames, phys, failed, fields = {}, {}, {}, {}
